@@ -20,7 +20,9 @@ import (
 	"encoding/base64"
 	"encoding/json"
 	"fmt"
+	"io/ioutil"
 	"math"
+	"net/http"
 	"net/http/httptest"
 	"net/url"
 	"path/filepath"
@@ -32,10 +34,13 @@ import (
 	"time"
 
 	"github.com/Cloud-Foundations/keymaster/lib/authutil"
+	"github.com/Cloud-Foundations/keymaster/lib/pwauth"
+	"github.com/Cloud-Foundations/keymaster/lib/pwauth/htpassword"
 	"github.com/Cloud-Foundations/keymaster/lib/pwauth/ldap"
 	"github.com/Cloud-Foundations/keymaster/lib/vfldapsrv"
 	"github.com/go-jose/go-jose/v4"
 	"github.com/go-jose/go-jose/v4/jwt"
+	"golang.org/x/crypto/bcrypt"
 )
 
 var vf07Names = []string{"alice", "bob", "carol"}
@@ -49,14 +54,27 @@ func vf07Password(id int) string {
 	return fmt.Sprintf("pw-%d-correct horse", id)
 }
 
+// vf07Variant spells the name as the client types it: l/L/1 lower, u/U/2 upper, m/M/3 capitalised.
 func vf07Variant(name, v string) string {
 	switch strings.ToLower(v) {
-	case "u":
+	case "u", "2":
 		return strings.ToUpper(name)
-	case "m":
+	case "m", "3":
 		return strings.ToUpper(name[:1]) + name[1:]
 	}
 	return name
+}
+
+// vf07Route: l u m = form fields at loginHandler, L U M = basic auth at loginHandler,
+// 1 2 3 = basic auth without cookie through checkAuth (what certgen and the API handlers use).
+func vf07Route(v string) string {
+	switch {
+	case strings.Contains("lum", v):
+		return "form"
+	case strings.Contains("LUM", v):
+		return "basic"
+	}
+	return "checkauth"
 }
 
 type vf07Row struct {
@@ -75,6 +93,7 @@ type vf07World struct {
 	vault      map[int]*vf07Row
 	pwOf       map[string]int
 	hint       int
+	htChecker  pwauth.PasswordAuthenticator
 }
 
 func vf07NewWorld(t *testing.T) (*vf07World, func(), error) {
@@ -105,6 +124,26 @@ func vf07NewWorld(t *testing.T) (*vf07World, func(), error) {
 	}
 	w := &vf07World{t: t, state: state, cluster: cluster, realDB: state.db, closedDB: closed, foreignKey: fk,
 		vault: map[int]*vf07Row{}, pwOf: map[string]int{}}
+	// htpasswd backend for the `ht` ops: alice, a legacy mixed-case entry Alice with another password, bob
+	var lines []string
+	for _, e := range []struct {
+		name string
+		pw   int
+	}{{"alice", 1}, {"Alice", 2}, {"bob", 2}} {
+		h, err := bcrypt.GenerateFromPassword([]byte(vf07Password(e.pw)), bcrypt.MinCost)
+		if err != nil {
+			return nil, cleanup, err
+		}
+		lines = append(lines, e.name+":$2y$"+string(h[4:]))
+	}
+	htFile := filepath.Join(state.Config.Base.DataDirectory, "vf07-htpasswd")
+	if err := ioutil.WriteFile(htFile, []byte(strings.Join(lines, "\n")+"\n"), 0600); err != nil {
+		return nil, cleanup, err
+	}
+	w.htChecker, err = htpassword.New(htFile, state.logger)
+	if err != nil {
+		return nil, cleanup, err
+	}
 	return w, cleanup, nil
 }
 
@@ -324,9 +363,35 @@ func (w *vf07World) rows() string {
 		w.rowStr(w.realDB, "bob"), w.rowStr(w.state.cacheDB, "bob"))
 }
 
-func (w *vf07World) login(name, pass string, basic bool) string {
+// login sends the credentials over the given route and reports A (accepted AND the identity granted
+// is the normalised user), W (accepted for another identity), R (401), E<code>, P (panic).
+func (w *vf07World) login(name, pass, route string) string {
+	want := strings.ToLower(name)
+	if route == "checkauth" {
+		req := httptest.NewRequest("GET", "/vf07-protected", nil)
+		req.SetBasicAuth(name, pass)
+		var got *authInfo
+		rr, p := vfServe(func(rw http.ResponseWriter, r *http.Request) {
+			if ai, err := w.state.checkAuth(rw, r, AuthTypePassword); err == nil {
+				got = ai
+				rw.WriteHeader(http.StatusNoContent)
+			}
+		}, req)
+		switch {
+		case p != nil:
+			return "P"
+		case rr.Code == http.StatusNoContent && got != nil:
+			if got.Username != want {
+				return "W"
+			}
+			return "A"
+		case rr.Code == 401:
+			return "R"
+		}
+		return "E" + strconv.Itoa(rr.Code)
+	}
 	var req = httptest.NewRequest("POST", "/api/v0/login", nil)
-	if basic {
+	if route == "basic" {
 		req.SetBasicAuth(name, pass)
 	} else {
 		form := url.Values{}
@@ -344,6 +409,13 @@ func (w *vf07World) login(name, pass string, basic bool) string {
 	case 200:
 		for _, c := range rr.Result().Cookies() {
 			if c.Name == authCookieName && c.Value != "" {
+				info, err := w.state.getAuthInfoFromAuthJWT(c.Value)
+				if err != nil {
+					return "E200"
+				}
+				if info.Username != want {
+					return "W"
+				}
 				return "A"
 			}
 		}
@@ -387,14 +459,26 @@ func vf07Worker(t *testing.T, lines []string) (out []string) {
 		case f[0] == "login" && len(f) == 4:
 			u, ok1 := atoi(f[1])
 			pw, ok2 := atoi(f[2])
-			if !ok1 || !ok2 || u < 0 || u > 2 || pw < 0 || pw > 5 || !strings.Contains("lumLUM", f[3]) || len(f[3]) != 1 {
+			if !ok1 || !ok2 || u < 0 || u > 2 || pw < 0 || pw > 5 || !strings.Contains("lumLUM123", f[3]) || len(f[3]) != 1 {
 				bad = true
 				break
 			}
 			w.cluster.TakeTrace()
 			w.hint = pw
-			res = w.login(vf07Variant(vf07Names[u], f[3]), vf07Password(pw), f[3] == strings.ToUpper(f[3]))
+			res = w.login(vf07Variant(vf07Names[u], f[3]), vf07Password(pw), vf07Route(f[3]))
 			trace = w.cluster.TakeTrace()
+		case f[0] == "ht" && len(f) == 4:
+			// the same request with the htpasswd backend configured
+			u, ok1 := atoi(f[1])
+			pw, ok2 := atoi(f[2])
+			if !ok1 || !ok2 || u < 0 || u > 2 || pw < 0 || pw > 5 || !strings.Contains("lumLUM123", f[3]) || len(f[3]) != 1 {
+				bad = true
+				break
+			}
+			ldapChecker := w.state.passwordChecker
+			w.state.passwordChecker = w.htChecker
+			res = w.login(vf07Variant(vf07Names[u], f[3]), vf07Password(pw), vf07Route(f[3]))
+			w.state.passwordChecker = ldapChecker
 		case f[0] == "srv" && len(f) == 3:
 			i, ok := atoi(f[1])
 			bad = !ok || !w.cluster.SetStatus(i, f[2])
